@@ -99,6 +99,17 @@ func (c *Ctx) FactsAt(f *FuncInfo, n ast.Node, throughClosures bool) []Fact {
 			} else if p.Else != nil && child == ast.Node(p.Else) {
 				splitFact(p.Cond, false, &facts)
 			}
+		case *ast.BinaryExpr:
+			// short-circuit evaluation: the right operand runs only after the left one had the
+			// outcome that does not decide the expression.
+			if child == ast.Node(p.Y) {
+				switch p.Op {
+				case token.LAND:
+					splitFact(p.X, true, &facts)
+				case token.LOR:
+					splitFact(p.X, false, &facts)
+				}
+			}
 		case *ast.ForStmt:
 			if child == ast.Node(p.Body) && p.Cond != nil {
 				// holds at loop entry of each iteration only; recorded as cond.
